@@ -52,9 +52,9 @@ var (
 
 type pcToyCurve struct {
 	p, n, b, gx, gy *big.Int
-	name             string
-	params           *elliptic.CurveParams
-	dlog             map[string]int // "x,y" -> k with k*G = (x,y)
+	name            string
+	params          *elliptic.CurveParams
+	dlog            map[string]int // "x,y" -> k with k*G = (x,y)
 }
 
 func (c *pcToyCurve) Name() string     { return c.name }
@@ -234,7 +234,7 @@ var pcStNames = map[string][]string{
 }
 var pcPfNames = map[string][]string{
 	"sch": {"*alpha", "t"}, "schv": {"*alpha", "t", "u"}, "dln": {"[]alpha", "[]t"}, "pai": {"[]y"},
-	"mod": {"W", "[]X", "#A", "#B", "[]Z"},
+	"mod":   {"W", "[]X", "#A", "#B", "[]Z"},
 	"fac":   {"P", "Q", "A", "B", "T", "sigma", "z1", "z2", "w1", "w2", "v"},
 	"alice": {"z", "u", "w", "s", "s1", "s2"},
 	"bob":   {"z", "zp", "t", "v", "w", "s", "s1", "s2", "t1", "t2"},
@@ -299,8 +299,16 @@ type pcVecT struct {
 	Eqs    []string
 }
 
-func (v *pcVecT) g(name string, ok bool) { v.Names = append(v.Names, name); v.Guards = append(v.Guards, name); v.Val[name] = ok }
-func (v *pcVecT) e(name string, ok bool) { v.Names = append(v.Names, name); v.Eqs = append(v.Eqs, name); v.Val[name] = ok }
+func (v *pcVecT) g(name string, ok bool) {
+	v.Names = append(v.Names, name)
+	v.Guards = append(v.Guards, name)
+	v.Val[name] = ok
+}
+func (v *pcVecT) e(name string, ok bool) {
+	v.Names = append(v.Names, name)
+	v.Eqs = append(v.Eqs, name)
+	v.Val[name] = ok
+}
 func (v *pcVecT) failing() []string {
 	var f []string
 	for _, n := range v.Names {
@@ -688,7 +696,9 @@ func (t *pcTr) realVerify() (string, string) {
 		return pcGuard(func() bool { return pf.Verify(t.Cv.Ec, &paillier.PublicKey{N: t.N}, t.NT, t.H1, t.H2, I["c"]) })
 	case "bob":
 		pf := t.libBob()
-		return pcGuard(func() bool { return pf.Verify(t.Sess, t.Cv.Ec, &paillier.PublicKey{N: t.N}, t.NT, t.H1, t.H2, I["c1"], I["c2"]) })
+		return pcGuard(func() bool {
+			return pf.Verify(t.Sess, t.Cv.Ec, &paillier.PublicKey{N: t.N}, t.NT, t.H1, t.H2, I["c1"], I["c2"])
+		})
 	case "bobwc":
 		pf := &mta.ProofBobWC{ProofBob: t.libBob(), U: t.Cv.ecPoint(P["U"])}
 		return pcGuard(func() bool {
